@@ -130,7 +130,9 @@ static int64_t eval_rval(Node *node, char ***label);
 static bool is_const_expr(Node *node);
 static Node *assign(Token **rest, Token *tok);
 static Node *logor(Token **rest, Token *tok);
-static double eval_double(Node *node);
+static long double eval_double(Node *node);
+static bool eval_truth(Node *node);
+static bool eval_fcmp(Node *node);
 static Node *conditional(Token **rest, Token *tok);
 static Node *logand(Token **rest, Token *tok);
 static Node *bitor(Token **rest, Token *tok);
@@ -1902,6 +1904,31 @@ static int64_t eval_div(Node *node) {
   return is_div ? eval_trunc(node->ty, lhs / rhs) : lhs % rhs;
 }
 
+// Whether a constant scalar expression compares unequal to 0.
+static bool eval_truth(Node *node) {
+  add_type(node);
+  if (is_flonum(node->ty))
+    return eval_double(node) != 0;
+  return eval(node) != 0;
+}
+
+// Compare two floating-point constants.
+static bool eval_fcmp(Node *node) {
+  long double lhs = eval_double(node->lhs);
+  long double rhs = eval_double(node->rhs);
+
+  switch (node->kind) {
+  case ND_EQ:
+    return lhs == rhs;
+  case ND_NE:
+    return lhs != rhs;
+  case ND_LT:
+    return lhs < rhs;
+  default:
+    return lhs <= rhs;
+  }
+}
+
 // Evaluate a given node as a constant expression.
 //
 // A constant expression is either just a number or ptr+n where ptr
@@ -1911,8 +1938,22 @@ static int64_t eval_div(Node *node) {
 static int64_t eval2(Node *node, char ***label) {
   add_type(node);
 
-  if (is_flonum(node->ty))
-    return eval_double(node);
+  if (is_flonum(node->ty)) {
+    // Values above LONG_MAX can only be meant for an unsigned long.
+    long double val = eval_double(node);
+    if (val >= 9223372036854775808.0L)
+      return (uint64_t)val;
+    return val;
+  }
+
+  switch (node->kind) {
+  case ND_EQ:
+  case ND_NE:
+  case ND_LT:
+  case ND_LE:
+    if (is_flonum(node->lhs->ty))
+      return eval_fcmp(node);
+  }
 
   switch (node->kind) {
   case ND_ADD:
@@ -1951,18 +1992,26 @@ static int64_t eval2(Node *node, char ***label) {
       return (uint64_t)eval(node->lhs) <= eval(node->rhs);
     return eval(node->lhs) <= eval(node->rhs);
   case ND_COND:
-    return eval(node->cond) ? eval2(node->then, label) : eval2(node->els, label);
+    return eval_truth(node->cond) ? eval2(node->then, label) : eval2(node->els, label);
   case ND_COMMA:
     return eval2(node->rhs, label);
   case ND_NOT:
-    return !eval(node->lhs);
+    return !eval_truth(node->lhs);
   case ND_BITNOT:
     return eval_trunc(node->ty, ~eval(node->lhs));
   case ND_LOGAND:
-    return eval(node->lhs) && eval(node->rhs);
+    return eval_truth(node->lhs) && eval_truth(node->rhs);
   case ND_LOGOR:
-    return eval(node->lhs) || eval(node->rhs);
+    return eval_truth(node->lhs) || eval_truth(node->rhs);
   case ND_CAST:
+    if (is_flonum(node->lhs->ty)) {
+      long double val = eval_double(node->lhs);
+      if (node->ty->kind == TY_BOOL)
+        return val != 0;
+      if (node->ty->is_unsigned && node->ty->size == 8)
+        return (uint64_t)val;
+      return eval_trunc(node->ty, (int64_t)val);
+    }
     return eval_trunc(node->ty, eval2(node->lhs, label));
   case ND_ADDR:
     return eval_rval(node->lhs, label);
@@ -2029,7 +2078,7 @@ static bool is_const_expr(Node *node) {
   case ND_COND:
     if (!is_const_expr(node->cond))
       return false;
-    return is_const_expr(eval(node->cond) ? node->then : node->els);
+    return is_const_expr(eval_truth(node->cond) ? node->then : node->els);
   case ND_COMMA:
     return is_const_expr(node->rhs);
   case ND_NEG:
@@ -2049,7 +2098,16 @@ int64_t const_expr(Token **rest, Token *tok) {
   return eval(node);
 }
 
-static double eval_double(Node *node) {
+// Round a floating-point constant to a given floating type.
+static long double eval_fround(Type *ty, long double val) {
+  if (ty->kind == TY_FLOAT)
+    return (float)val;
+  if (ty->kind == TY_DOUBLE)
+    return (double)val;
+  return val;
+}
+
+static long double eval_double(Node *node) {
   add_type(node);
 
   if (is_integer(node->ty)) {
@@ -2060,23 +2118,45 @@ static double eval_double(Node *node) {
 
   switch (node->kind) {
   case ND_ADD:
-    return eval_double(node->lhs) + eval_double(node->rhs);
   case ND_SUB:
-    return eval_double(node->lhs) - eval_double(node->rhs);
   case ND_MUL:
-    return eval_double(node->lhs) * eval_double(node->rhs);
-  case ND_DIV:
-    return eval_double(node->lhs) / eval_double(node->rhs);
+  case ND_DIV: {
+    // The operands have the type of the result. A float operation is
+    // carried out in double; rounding its result to float is exact.
+    long double lhs = eval_double(node->lhs);
+    long double rhs = eval_double(node->rhs);
+
+    if (node->ty->kind == TY_LDOUBLE) {
+      if (node->kind == ND_ADD)
+        return lhs + rhs;
+      if (node->kind == ND_SUB)
+        return lhs - rhs;
+      if (node->kind == ND_MUL)
+        return lhs * rhs;
+      return lhs / rhs;
+    }
+
+    double x = lhs;
+    double y = rhs;
+    double val;
+    if (node->kind == ND_ADD)
+      val = x + y;
+    else if (node->kind == ND_SUB)
+      val = x - y;
+    else if (node->kind == ND_MUL)
+      val = x * y;
+    else
+      val = x / y;
+    return eval_fround(node->ty, val);
+  }
   case ND_NEG:
     return -eval_double(node->lhs);
   case ND_COND:
-    return eval_double(node->cond) ? eval_double(node->then) : eval_double(node->els);
+    return eval_truth(node->cond) ? eval_double(node->then) : eval_double(node->els);
   case ND_COMMA:
     return eval_double(node->rhs);
   case ND_CAST:
-    if (is_flonum(node->lhs->ty))
-      return eval_double(node->lhs);
-    return eval(node->lhs);
+    return eval_fround(node->ty, eval_double(node->lhs));
   case ND_NUM:
     return node->fval;
   }
